@@ -115,6 +115,7 @@ def run(ctx):
         b = f.body
         cs = [(bi, g.eb.call_expr(t)) for bi, t in b.calls() if t.callee.name == "contains" and g.loop_of(bi) is not None]
         quant_true = None
+        ref = []
         if len(cs) == 1:
             cbi, r = cs[0]
             detail = fmt(r)[:300]
@@ -160,9 +161,24 @@ def run(ctx):
             ctx.ok(rule, key, "true is returned only for an empty history or after every prefix passed the membership test", loc=f.loc)
         else:
             ctx.bad(rule, key, "unexpected set of returns: %s" % [(rd.kind, fmt(rd.expr)[:60]) for rd in g.retdefs], loc=f.loc)
+        # ... and nothing else can return false ("valid exactly when"): every `false` is behind the level refusal or the
+        # per-prefix membership refusal
+        key = "%s:%s:no-other-refusal" % (rule, f.id)
+        falses = [rd for rd in g.retdefs if rd.kind == "false"]
+        ref_edge = ref[0] if len(ref) == 1 else None
+        okf = bool(falses) and lvl is not None and ref_edge is not None
+        stray = []
+        if okf:
+            for rd in falses:
+                if not (b.dominates(lvl.target, rd.block) or b.dominates(ref_edge.target, rd.block)):
+                    stray.append(rd)
+        if okf and not stray:
+            ctx.ok(rule, key, "false is returned only when the level did not increase or a prefix is not an extension", loc=f.loc)
+        else:
+            ctx.bad(rule, key, "a parameter can be declared invalid for another reason (return false at line(s) %s)" % sorted(set(rd.line for rd in stray)), loc=f.loc)
     except Skip:
         pass
-    ctx.floor(rule, 5)
+    ctx.floor(rule, 6)
 
     rule = "R-C20.V.single-use"
     for adt in ("vdaf::prio3::Prio3", "vdaf::prio2::Prio2"):
@@ -181,6 +197,9 @@ def run(ctx):
     ctx.floor(rule, 2)
 
     constructor_rules(ctx, "R-C20.G.constructor")
+    # decoding accepts exactly the canonical packed prefixes (shared with C07)
+    from rules import c07
+    c07.aggparam_decode_rules(ctx, "R-C20.G.decode")
 
     rule = "R-C20.W.literal"
     sites = []
